@@ -416,6 +416,16 @@ class VU:
 
 
 @labtech.task
+class VÉ:
+    """A module-level task type whose (valid Python) name is not ASCII: it ends up in cache keys and directory names."""
+    p: Any = None
+    q: Any = None
+
+    def run(self):
+        return _val_run(self)
+
+
+@labtech.task
 class VS:
     """post_init rewrites a parameter into a canonical form (C15 only: its cache_key is computed before that)."""
     p: Any = None
